@@ -2,6 +2,7 @@
 C19 — dynamic registration admits only well-formed clients and isolates them.
 -/
 import IdpyVerif.Model.Registration
+import IdpyVerif.Gen.Reg
 namespace Idpy.Props.C19
 open Idpy Idpy.Registration
 
@@ -119,5 +120,44 @@ theorem unknown_token_refused (s : St) (token client : Nat) (h : ∀ c ∈ s.cdb
 /-- every state reachable from the empty provider satisfies the invariant -/
 theorem inv_reachable (ops : List Op) : Inv (run {} ops).1 :=
   inv_run ops {} ⟨by simp, by simp⟩
+
+/-- **what is stored for a parameter the table knows comes from the announced set**: for every table, every metadata and every value -/
+theorem filtered_value_is_announced (table : List (String × String)) (announced : String → Option (List String)) (k v v' sup : String) (l : List String)
+    (hk : lookupS table k = some sup) (ha : announced sup = some l) (h : filterParam table announced k v = some v') : v' = v ∧ v ∈ l := by
+  unfold filterParam at h
+  rw [hk] at h
+  simp only [ha] at h
+  split at h
+  · rename_i hc
+    exact ⟨(Option.some.inj h).symm, by simpa using hc⟩
+  · cases h
+
+/-- … a value outside the announced set is dropped … -/
+theorem unannounced_value_dropped (table : List (String × String)) (announced : String → Option (List String)) (k v sup : String) (l : List String)
+    (hk : lookupS table k = some sup) (ha : announced sup = some l) (hv : v ∉ l) : filterParam table announced k v = none := by
+  unfold filterParam
+  rw [hk]
+  simp only [ha]
+  split
+  · rename_i hc; exact absurd (by simpa using hc) hv
+  · rfl
+
+/-- … and a parameter the table does NOT know passes whatever its value — which is why the table has to know every algorithm parameter: -/
+theorem unknown_parameter_passes (table : List (String × String)) (announced : String → Option (List String)) (k v : String)
+    (hk : lookupS table k = none) : filterParam table announced k v = some v := by
+  unfold filterParam; rw [hk]
+
+/-- **generated obligation** (tables regenerated from /repo on every run): every algorithm parameter of the registration request schema
+    is in the table the endpoint filters by, mapped to a parameter of the provider metadata schema -/
+theorem every_alg_param_is_filtered :
+    ∀ p ∈ Gen.regAlgParams, ∃ s, lookupS Gen.register2preferred p = some s ∧ s ∈ Gen.providerMetadataParams := by
+  decide +kernel
+
+/-- hence: whatever is stored for ANY algorithm parameter of the schema is a value the provider announces for it (when it announces a set) -/
+theorem registered_algorithms_are_announced (announced : String → Option (List String)) (p v v' : String) (hp : p ∈ Gen.regAlgParams)
+    (h : filterParam Gen.register2preferred announced p v = some v') :
+    ∃ s, lookupS Gen.register2preferred p = some s ∧ (∀ l, announced s = some l → v' = v ∧ v ∈ l) := by
+  obtain ⟨s, hs, _⟩ := every_alg_param_is_filtered p hp
+  exact ⟨s, hs, fun l hl => filtered_value_is_announced _ _ p v v' s l hs hl h⟩
 
 end Idpy.Props.C19
